@@ -125,9 +125,14 @@ Definition rtable (v : variant) (env : bool) : list (state * nat) :=
   rank_table state state_eqb (core_succ (progs v env)) 60 (reach_set v env).
 Definition rank (v : variant) (env : bool) (s : state) : nat := lookup state state_eqb (rtable v env) s.
 
+(* I6: a waiting reader is woken as soon as a signal is queued: whenever the queue is non-empty,
+   a task parked on the queue condition has been notified *)
+Definition inv_sigwake (v : variant) (env : bool) (s : state) : bool :=
+  implb (q s) (match pk (tw s) with ParkCv n _ _ => n | _ => true end).
+
 Definition all_inv (v : variant) (env : bool) (s : state) : bool :=
   inv_released v env s && inv_late v env s && inv_finalize v env s && inv_outcome v env s
-  && inv_locks v env s && inv_progress v env s.
+  && inv_locks v env s && inv_progress v env s && inv_sigwake v env s.
 
 Lemma check_all : forall v env,
   closed state state_eqb (succ (progs v env)) (start (progs v env)) (reach_set v env) = true /\
@@ -163,6 +168,8 @@ Proof. intro R; use_inv R; assumption. Qed.
 Theorem locks v env s : Reachable v env s -> inv_locks v env s = true.
 Proof. intro R; use_inv R; assumption. Qed.
 Theorem progress v env s : Reachable v env s -> inv_progress v env s = true.
+Proof. intro R; use_inv R; assumption. Qed.
+Theorem sigwake v env s : Reachable v env s -> inv_sigwake v env s = true.
 Proof. intro R; use_inv R; assumption. Qed.
 
 Lemma core_incl v env s s' : In s' (core_succ (progs v env) s) -> In s' (succ (progs v env) s).
